@@ -642,9 +642,11 @@ def aggregates(fn, adt, variant=None):
             yield b, i, st
 
 
-def who_constructs(prog, adt, variant=None):
+def who_constructs(prog, adt, variant=None, include_derived=False):
     out = []
     for f in prog.fns.values():
+        if f.derived and not include_derived:
+            continue
         for b, i, st in aggregates(f, adt, variant):
             out.append((f, b, i, st))
     return out
